@@ -29,8 +29,9 @@ CONSTANTS
     LinMode,          \* "doc" | "pinned"
     EmitOn
 
-VARIABLES tpl, nl, maps, ci, ri, dk, stage
-vars == <<tpl, nl, maps, ci, ri, dk, stage>>
+VARIABLES tpl, nl, maps, ci, ri, dk, stage,
+          sc      \* the finished case with everything the specification computes for it (filled in once, by the last step)
+vars == <<tpl, nl, maps, ci, ri, dk, stage, sc>>
 
 Empty == [n \in {} |-> 0]
 Rx(name, subs, prods, args) ==
@@ -83,6 +84,7 @@ Init ==
     /\ tpl \in Tpls
     /\ nl = Empty /\ maps = Empty /\ ci = 1 /\ ri = 1 /\ dk = Empty
     /\ stage = "nl"
+    /\ sc = <<>>
 
 PickNL ==
     /\ stage = "nl"
@@ -94,7 +96,7 @@ PickNL ==
             /\ stage' = "map"
             /\ maps' = (1 :> <<>>)
             /\ UNCHANGED <<nl, ci>>
-    /\ UNCHANGED <<tpl, ri, dk>>
+    /\ UNCHANGED <<tpl, ri, dk, sc>>
 
 \* an entry may be appended when the map can still become an involution (OnlyInvolutive)
 CanAppend(m, e, L) ==
@@ -120,26 +122,11 @@ PickEntry ==
        ELSE IF ri < Len(T.rxns)
             THEN ri' = ri + 1 /\ maps' = maps @@ ((ri + 1) :> <<>>) /\ UNCHANGED <<stage, ci>>
             ELSE stage' = "dist" /\ ci' = 1 /\ UNCHANGED <<ri, maps>>
-    /\ UNCHANGED <<tpl, nl, dk>>
+    /\ UNCHANGED <<tpl, nl, dk, sc>>
 
 NDist == 4
 Salt == SumSeq([j \in 1..Len(T.rxns) |-> IF j \in DOMAIN maps THEN SumSeq(maps[j]) ELSE 0])
 
-PickDist ==
-    /\ stage = "dist"
-    /\ IF ci <= Len(T.cpds)
-       THEN /\ IF DistAll THEN \E k \in 1..NDist : dk' = dk @@ (T.cpds[ci] :> k)
-               ELSE dk' = dk @@ (T.cpds[ci] :> ((Salt + ci) % NDist) + 1)
-            /\ ci' = ci + 1 /\ UNCHANGED stage
-       ELSE stage' = "done" /\ UNCHANGED <<dk, ci>>
-    /\ UNCHANGED <<tpl, nl, maps, ri>>
-
-Next == PickNL \/ PickEntry \/ PickDist
-Done == stage = "done"
-
-(***************************************************************************)
-(* Isotopomer distributions with a given total                             *)
-(***************************************************************************)
 W3 == <<1, 2, 3, 6, 1, 1, 2, 2>>
 W4 == <<5, 0, 4, 3, 0, 2, 1, 0>>
 RECURSIVE BitVal(_)
@@ -155,40 +142,64 @@ Share(k, tot, n, q) ==
              given == SumSeq([i \in 1..n |-> part(i - 1)])
          IN part(q) + (IF q = k % n THEN tot - given ELSE 0)
 
-BB == Content
-Dist == [n \in IsoNames(BB) |->
-           LET rec == CHOOSE x \in IsoIndex(BB) : x.n = n
-           IN Share(dk[rec.c], BB.init[rec.c], Pow2(BB.nl[rec.c]), BitVal(rec.bits))]
-
-Pool == [c \in CpdSet(BB) |-> BB.init[c]]
-Flux == [j \in DOMAIN BB.rxns |-> BRate(BB, Pool, BB.rxns[j])]
-FluxByName == [n \in {BB.rxns[j].name : j \in DOMAIN BB.rxns} |->
-                 Flux[CHOOSE j \in DOMAIN BB.rxns : BB.rxns[j].name = n]]
+DistOf(b, d) ==
+    LET idx == IsoIndex(b)
+    IN [n \in {rec.n : rec \in idx} |->
+          LET rec == CHOOSE x \in idx : x.n = n
+          IN Share(d[rec.c], b.init[rec.c], Pow2(b.nl[rec.c]), BitVal(rec.bits))]
 
 Xs == <<Q!Zero, Q!R(1, 2), Q!R(2, 3), Q!One>>
-Uniform(x) == [n \in PosNames(BB) |-> x]
-E0 == Enrich(BB, Dist)
-AllInvolutive == \A j \in DOMAIN BB.rxns : Involutive(BB, BB.rxns[j])
+
+\* everything the specification says about the finished case, computed once
+Compute(d) ==
+    LET b     == Content
+        y     == DistOf(b, d)
+        pool  == [c \in CpdSet(b) |-> b.init[c]]
+        flux  == [j \in DOMAIN b.rxns |-> BRate(b, pool, b.rxns[j])]
+        e0    == Enrich(b, y)
+        isody == LRhs(b, y, "occurrence")
+        inv   == \A j \in DOMAIN b.rxns : Involutive(b, b.rxns[j])
+        uni(x) == [n \in DOMAIN e0 |-> x]
+    IN [tpl |-> tpl, b |-> b, dk |-> d, pool |-> pool, fluxi |-> flux,
+        flux |-> [n \in {b.rxns[j].name : j \in DOMAIN b.rxns} |-> flux[CHOOSE j \in DOMAIN b.rxns : b.rxns[j].name = n]],
+        y |-> y, totals |-> Totals(b, y), steady |-> \A c \in CpdSet(b) : BRhs(b, pool)[c] = 0,
+        isody |-> isody, involutive |-> inv, e0 |-> e0,
+        iso |-> IsoEnrichRateD(b, y, isody),
+        lin |-> [k \in 1..Len(Xs) |-> LinRhs(b, pool, flux, e0, Xs[k], LinMode)],
+        uni |-> [k \in 1..Len(Xs) |-> LinRhs(b, pool, flux, uni(Xs[k]), Xs[k], LinMode)],
+        pin |-> IF inv THEN [k \in 1..Len(Xs) |-> LinRhs(b, pool, flux, e0, Xs[k], "pinned")] ELSE <<>>,
+        doc |-> IF inv THEN [k \in 1..Len(Xs) |-> LinRhs(b, pool, flux, e0, Xs[k], "doc")] ELSE <<>>]
+
+PickDist ==
+    /\ stage = "dist"
+    /\ IF ci <= Len(T.cpds)
+       THEN /\ IF DistAll THEN \E k \in 1..NDist : dk' = dk @@ (T.cpds[ci] :> k)
+               ELSE dk' = dk @@ (T.cpds[ci] :> ((Salt + ci) % NDist) + 1)
+            /\ ci' = ci + 1 /\ UNCHANGED <<stage, sc>>
+       ELSE stage' = "done" /\ sc' = Compute(dk) /\ UNCHANGED <<dk, ci>>
+    /\ UNCHANGED <<tpl, nl, maps, ri>>
+
+Next == PickNL \/ PickEntry \/ PickDist
+Done == stage = "done"
+
+ZeroFn == [n \in DOMAIN sc.e0 |-> Q!Zero]
 
 Scenario ==
-    [tpl |-> tpl, b |-> BB, dk |-> dk, pool |-> Pool, flux |-> FluxByName,
-     y |-> Dist, isody |-> LRhs(BB, Dist, "occurrence"),
-     involutive |-> AllInvolutive,
-     evals |-> <<[what |-> "isotopomer-derived", x |-> Q!One, e |-> E0, de |-> IsoEnrichRate(BB, Dist)]>>
-               \o [k \in 1..2 |-> [what |-> "linear definition, EXT below 1", x |-> Xs[k], e |-> E0,
-                                   de |-> LinRhs(BB, Pool, Flux, E0, Xs[k], "doc")]]
-               \o [k \in 1..Len(Xs) |-> [what |-> "uniform enrichment equal to EXT", x |-> Xs[k], e |-> Uniform(Xs[k]),
-                                         de |-> Uniform(Q!Zero)]]]
+    [tpl |-> sc.tpl, b |-> sc.b, dk |-> sc.dk, pool |-> sc.pool, flux |-> sc.flux, y |-> sc.y, isody |-> sc.isody,
+     involutive |-> sc.involutive,
+     evals |-> <<[what |-> "isotopomer-derived", x |-> Q!One, e |-> sc.e0, de |-> sc.iso]>>
+               \o [k \in 1..2 |-> [what |-> "linear definition, EXT below 1", x |-> Xs[k], e |-> sc.e0, de |-> sc.lin[k]]]
+               \o [k \in 1..Len(Xs) |-> [what |-> "uniform enrichment equal to EXT", x |-> Xs[k],
+                                         e |-> [n \in DOMAIN sc.e0 |-> Xs[k]], de |-> ZeroFn]]]
 
 Emit == (EmitOn /\ Done) => PrintT("@J@" \o ToJson(Scenario) \o "@E@")
 
-ThSteady   == Done => IsSteadyAt(BB, Dist) /\ \A c \in CpdSet(BB) : Pool[c] > 0
-ThDist     == Done => Totals(BB, Dist) = Pool /\ \A n \in IsoNames(BB) : Dist[n] >= 0
-ThLinIsIso == Done => LinRhs(BB, Pool, Flux, E0, Q!One, LinMode) = IsoEnrichRate(BB, Dist)
-ThUniform  == Done => \A k \in 1..Len(Xs) : LinRhs(BB, Pool, Flux, Uniform(Xs[k]), Xs[k], LinMode) = Uniform(Q!Zero)
-ThZero     == Done => LinRhs(BB, Pool, Flux, Uniform(Q!Zero), Q!Zero, LinMode) = Uniform(Q!Zero)
-ThInvol    == (Done /\ AllInvolutive) =>
-                 \A k \in {2, 4} : LinRhs(BB, Pool, Flux, E0, Xs[k], "pinned") = LinRhs(BB, Pool, Flux, E0, Xs[k], "doc")
+ThSteady   == Done => sc.steady /\ \A c \in DOMAIN sc.pool : sc.pool[c] > 0
+ThDist     == Done => sc.totals = sc.pool /\ \A n \in DOMAIN sc.y : sc.y[n] >= 0
+ThLinIsIso == Done => sc.lin[4] = sc.iso                                   \* Xs[4] = 1: the external pool fully labelled
+ThUniform  == Done => \A k \in 1..Len(Xs) : sc.uni[k] = ZeroFn
+ThZero     == Done => sc.uni[1] = ZeroFn                                   \* Xs[1] = 0: no label anywhere, none appears
+ThInvol    == (Done /\ sc.involutive) => sc.pin = sc.doc
 \* every rational stayed in Rat's safe range
-ThSafe     == Done => \A n \in PosNames(BB) : Q!IsRat(IsoEnrichRate(BB, Dist)[n]) /\ Q!IsRat(E0[n])
+ThSafe     == Done => \A n \in DOMAIN sc.e0 : Q!IsRat(sc.iso[n]) /\ Q!IsRat(sc.e0[n]) /\ \A k \in 1..Len(Xs) : Q!IsRat(sc.lin[k][n])
 =============================================================================
